@@ -89,6 +89,10 @@ func (w *World) doOracleClaim(in Intent) {
 			hl.List = append(hl.List, &oracletypes.Holder{Address: fmt.Sprintf("%x", a[:]), Value: val})
 		}
 		meta["holders"] = strings.Join(in.Vals, ",")
+		if in.Mut == "nil_holders" { // passes ValidateBasic: the list is simply absent
+			hl = nil
+			w.St.Fault("oracle_nil_holders")
+		}
 		w.Submit("holders_claim", signer, in.Net, meta, &oracletypes.MsgHoldersClaim{Epoch: uint64(epoch), Holders: hl, Orchestrator: signer.Addr.String()})
 	}
 }
